@@ -107,4 +107,10 @@ MACROS = [
     ("[[k]].map(x, x.map(x, x + 1)[0])[0]", ["k"], lambda v: v["k"] + 1),
     ("[k].map(x, x)[0] + [j].map(x, x)[0] + x", ["k", "j", "x"], lambda v: v["k"] + v["j"] + v["x"]),
     ("[k].exists_one(x, x == k) ? x : k", ["k", "x"], lambda v: v["x"]),
+    # several outer items: the inner body must see the *current* outer element
+    ("[k, j].map(x, [1, 2].map(y, x + y)[1])[1]", ["k", "j"], lambda v: v["j"] + 2),
+    ("[k, j, x].map(a, [10, 20].map(b, a + b)[0])[2] - [k, j, x].map(a, [10, 20].map(b, a + b)[1])[0]", ["k", "j", "x"], lambda v: (v["x"] + 10) - (v["k"] + 20)),
+    ("[k, j].map(x, [x].map(y, y + x)[0])[0] - [k, j].map(x, [x].map(y, y + x)[0])[1]", ["k", "j"], lambda v: 2 * v["k"] - 2 * v["j"]),
+    ("[k, j].filter(x, [x, 1].exists(y, y == j && x == j))[0]", ["k", "j"], lambda v: v["j"]),
+    ("[k, j].map(x, [x, 0].filter(y, y == x)[0])[1]", ["k", "j"], lambda v: v["j"]),
 ]
